@@ -6,11 +6,11 @@ export GOFLAGS=-mod=mod GOPROXY=off GOSUMDB=off GOTOOLCHAIN=local
 cd "$(dirname "$0")/.."
 patch=$(readlink -f "$1"); prop=${2:-all}; n=${3:-5}
 wt=$(mktemp -d /tmp/liskcheck-try.XXXXXX)
-git -C /repo worktree add -q --detach "$wt" HEAD || exit 2
+flock /tmp/liskcheck-wt.lock git -C /repo worktree add -q --detach "$wt" HEAD || exit 2
 if ! git -C "$wt" apply "$patch"; then echo "PATCH DOES NOT APPLY"; git -C /repo worktree remove --force "$wt"; exit 2; fi
 (cd "$wt" && go build ./... 2>&1 | head -5)
 ev=$(mktemp -d /tmp/liskcheck-try-ev.XXXXXX); mkdir -p "$ev/evidence"; cp known_findings.json "$ev/"
 bin/liskcheck -repo "$wt" -verif "$ev" -prop "$prop" > "$ev/out.log" 2>&1
 grep -E -A"$n" "^  FAIL|undecided|BROKEN" "$ev/out.log" | cut -c1-700
 grep -E "^VIOLATION|^OK" "$ev/out.log" | tr '\n' ' '; echo
-git -C /repo worktree remove --force "$wt"; rm -rf "$ev"; git -C /repo worktree prune
+flock /tmp/liskcheck-wt.lock git -C /repo worktree remove --force "$wt"; rm -rf "$ev"
